@@ -248,6 +248,8 @@ def run(run: common.Run):
                         valid_corr=int(cm.sum())), 4)
     isolated_pixel_leg(run, tmp)
     flat_block_leg(run, tmp)
+    if run.only is None:
+        extreme_ratio_leg(run, tmp)
     resamp.check_resampler(run, 45 if run.quick() else 600)
 
 
@@ -289,6 +291,48 @@ def flat_block_leg(run, tmp):
             rr, cc = np.argwhere(lost[hv])[0]
             run.fail(case, f'valid source pixel ({rr},{cc}) is invalid in the corrected image ({int(lost[hv].sum())} lost pixels, all inside the '
                      f'constant patch; none is lost when the image is processed as one block)', signature=sig)
+
+
+def extreme_ratio_leg(run, tmp):
+    """
+    A 1/64 m source against a 32 m reference (ratio 2048, the order of a drone image against a satellite scene): the source's right
+    edge lies one source pixel - 1/2048 of a reference pixel - beyond a reference pixel edge, its bottom edge likewise.  The
+    reference pixels holding those slivers belong to the processing window, and the last source column and row are corrected like
+    every other valid pixel.
+    """
+    from fractions import Fraction
+    u = Fraction(1, 64)
+    R, Q = 2048, 8
+    for k in (0, 1):
+        # the reference pixels are 2048 source pixels long on one axis and 8 on the other (to keep the images small)
+        if k == 0:
+            ref = rasters.Grid(64 * 40_000, 64 * 90_000, R, Q, 6, 9, u)
+            src = rasters.Grid(ref.x0 + R + 512, ref.ytop - 2 * Q - 3, 1, 1, 4 * R + 1 - R - 512, 4 * Q + 2, u)
+        else:
+            ref = rasters.Grid(64 * 40_000, 64 * 90_000, Q, R, 9, 6, u)
+            src = rasters.Grid(ref.x0 + 2 * Q + 3, ref.ytop - R - 300, 1, 1, 4 * Q + 2, 4 * R + 1 - R - 300, u)
+        rng = run.rng(f'extreme{k}')
+        s = np.full((1, src.h, src.w), 100.0)
+        s[0, ::3, ::5] = 120.0
+        r = np.array([[[rng.randint(30, 150) for _ in range(ref.w)] for _ in range(ref.h)]], float)
+        case = dict(i=970_000 + k, op='resolution ratio 2048, source edge one source pixel beyond a reference pixel edge', model='gain',
+                    kernel=(1, 1), src=src.to_dict(), ref=ref.to_dict())
+        try:
+            pair = fusion.write_pair(tmp, f'c03x{k}', src, ref, s, r, None, None)
+            res = fusion.run_fuse(pair.src_path, pair.ref_path, tmp / f'c03x{k}_out.tif', model='gain', kernel_shape=(1, 1), param=False,
+                                  threads=1, max_block_mem=1024, model_config=dict(upsampling='nearest'))
+        except Exception as ex:
+            run.fail(case, f'fusion raised {type(ex).__name__}: {ex}', signature=dict(kind='raises'))
+            continue
+        run.evaluations += 1
+        run.hist['extreme resolution ratio (2048:1) cases'] += 1
+        run.nontrivial.add(('extreme-ratio', k))
+        lost = ~res.corr_mask
+        if lost.any():
+            rr, cc = np.argwhere(lost)[0]
+            run.fail(case, f'valid source pixel ({rr},{cc}) is invalid in the corrected image ({int(lost.sum())} lost pixels: rows '
+                     f'{int(np.argwhere(lost)[:, 0].min())}-{int(np.argwhere(lost)[:, 0].max())}, columns {int(np.argwhere(lost)[:, 1].min())}-'
+                     f'{int(np.argwhere(lost)[:, 1].max())})', signature=dict(kind='lost-pixel', extreme_ratio=True))
 
 
 def isolated_pixel_leg(run, tmp):
